@@ -228,6 +228,13 @@ theorem floor_narrow_common_counterexample :
       (cdTy ⟨i32, ⟨2, 1⟩⟩ ⟨i32, ⟨3, 1⟩⟩).rep.inR (1073741824 * mulL ⟨2, 1⟩ ⟨3, 1⟩) = false := by
   refine ⟨ok_of_toOption (by decide +kernel), by decide +kernel, by decide +kernel⟩
 
+/-- The same on two periods of the explored table (the witness of the finding in the correspondence run):
+    `floor<duration<int32_t, ratio<1001,30000>>>(duration<int32_t, milli>{71582789})`; `71582789 · 30 = 2^31 + 22`. -/
+theorem floor_narrow_common_table_counterexample :
+    floorTo ⟨i32, ⟨1001, 30000⟩⟩ ⟨i32, ⟨1, 1000⟩⟩ 71582789 = .ok 2145337 ∧
+      Spec.floor (⟨1, 1000⟩ : Ratio).toRat (⟨1001, 30000⟩ : Ratio).toRat 71582789 = 2145338 := by
+  refine ⟨ok_of_toOption (by decide +kernel), by decide +kernel⟩
+
 /-! ## the converting constructor, unary minus, compound assignments on every builtin representation -/
 
 /-- `convert_exact` (the converting constructor `To(From)`) on every builtin representation of `builtinReps` -/
